@@ -6,7 +6,8 @@
 From Coq Require Import List ZArith NArith QArith Bool Lia.
 Require Import QV.common.Util.
 Require Import QV.C18.Model QV.C18.Spec QV.C18.Corr QV.C18.Proofs_alist QV.C18.Proofs_route QV.C18.Proofs_inv
-               QV.C18.Proofs_frame_awg QV.C18.Proofs_frame_dac QV.C18.Proofs_obs.
+               QV.C18.Proofs_frame_awg QV.C18.Proofs_frame_dac QV.C18.Proofs_obs QV.C18.Proofs_dev QV.C18.Proofs_perdev
+               QV.C18.Proofs_perdev_dac.
 Import ListNotations.
 
 (* ---- reflexivity of the comparison functions ---------------------------------------------------------------------- *)
@@ -394,16 +395,87 @@ Qed.
 Lemma tstep_app dm h o : trun dm tinit (h ++ [o]) = tstep dm (trun dm tinit h) o.
 Proof. rewrite trun_app. reflexivity. Qed.
 
+(* ---- status per (name, device) on the observations ------------------------------------------------------------------ *)
+Lemma optrack_awg_view dm na nd st o e0 dl :
+  optrack_awg o (view na nd e0 st) (view na nd (snd (step dm st o)) (fst (step dm st o))) dl = ptrack_awg dm st o dl.
+Proof.
+  unfold optrack_awg, ptrack_awg. destruct (step dm st o) as [st' e]. cbn [fst snd]. destruct o; reflexivity.
+Qed.
+
+Lemma optrack_dac_view dm na nd st o e0 dl :
+  optrack_dac o (view na nd e0 st) (view na nd (snd (step dm st o)) (fst (step dm st o))) dl = ptrack_dac dm st o dl.
+Proof.
+  unfold optrack_dac, ptrack_dac. destruct (step dm st o) as [st' e]. cbn [fst snd]. destruct o; reflexivity.
+Qed.
+
+Lemma perdev_obs_awg_view dm cl dl st na nd e :
+  nodupN (keys (regs st)) = true -> (forall a, nodupN (keys (a_progs (awg_of st a))) = true) ->
+  (forall n a, is_lost cl n = false -> memNN (n, a) dl = false -> clean_at dm st n a) ->
+  perdev_obs_awg dm cl dl (view na nd e st) = true.
+Proof.
+  intros A B H. unfold perdev_obs_awg. cbn [view o_chmap o_regs o_awgs].
+  apply forall_idx_view. intros a. apply andb_true_iff. split.
+  - apply forallb_forall. intros [n en] Hin. cbn [fst snd].
+    destruct (is_lost cl n) eqn:Hl; auto. cbn [orb]. destruct (memNN (n, a) dl) eqn:Hd; auto. cbn [orb].
+    destruct (H n a Hl Hd) as [C1 _].
+    destruct (C1 en (In_lookup _ _ _ (B a) Hin)) as [r [Lr [U Eo]]]. rewrite Lr, U, Eo. auto.
+  - apply forallb_forall. intros [n r] Hin. cbn [fst snd].
+    destruct (is_lost cl n) eqn:Hl; auto. cbn [orb]. destruct (memNN (n, a) dl) eqn:Hd; auto. cbn [orb].
+    destruct (H n a Hl Hd) as [_ [C2 C3]]. pose proof (In_lookup _ _ _ A Hin) as Lr.
+    rewrite (C3 r Lr), eqb_same, andb_true_r.
+    destruct (uses_awg (chmap st) (r_chans r) a) eqn:U; auto. cbn [negb orb]. apply (C2 r Lr U).
+Qed.
+
+Lemma perdev_obs_dac_view cl dl st na nd e :
+  nodupN (keys (regs st)) = true -> (forall d, nodupN (keys (d_wins (dac_of st d))) = true) ->
+  (forall n d, is_lost cl n = false -> memNN (n, d) dl = false -> dclean_at st n d) ->
+  perdev_obs_dac cl dl (view na nd e st) = true.
+Proof.
+  intros A B H. unfold perdev_obs_dac. cbn [view o_mmap o_regs o_dacs].
+  apply forall_idx_view. intros d. apply andb_true_iff. split.
+  - apply forallb_forall. intros [n w] Hin. cbn [fst snd].
+    destruct (is_lost cl n) eqn:Hl; auto. cbn [orb]. destruct (memNN (n, d) dl) eqn:Hd; auto. cbn [orb].
+    destruct (H n d Hl Hd) as [C1 _].
+    destruct (C1 w (In_lookup _ _ _ (B d) Hin)) as [r [Lr [U Eo]]]. rewrite Lr, U, Eo. auto.
+  - apply forallb_forall. intros [n r] Hin. cbn [fst snd].
+    destruct (is_lost cl n) eqn:Hl; auto. cbn [orb]. destruct (memNN (n, d) dl) eqn:Hd; auto. cbn [orb].
+    destruct (H n d Hl Hd) as [_ [C2 C3]]. pose proof (In_lookup _ _ _ A Hin) as Lr.
+    rewrite (C3 r Lr), eqb_same, andb_true_r.
+    destruct (uses_dac (mmap st) (r_meas r) d) eqn:U; auto. cbn [negb orb]. apply (C2 r Lr U).
+Qed.
+
+Lemma run_cons dm st o h : run dm st (o :: h) = run dm (fst (step dm st o)) h.
+Proof. reflexivity. Qed.
+
+Lemma prun_app dm : forall h st dl h', prun dm st dl (h ++ h') = prun dm (run dm st h) (prun dm st dl h) h'.
+Proof. induction h as [|o h IH]; intros st dl h'; [reflexivity|]. cbn [app prun]. rewrite run_cons. apply IH. Qed.
+
+Lemma prun_dac_app dm : forall h st dl h',
+  prun_dac dm st dl (h ++ h') = prun_dac dm (run dm st h) (prun_dac dm st dl h) h'.
+Proof. induction h as [|o h IH]; intros st dl h'; [reflexivity|]. cbn [app prun_dac]. rewrite run_cons. apply IH. Qed.
+
+(* the per-device clauses accept the model's view after every history *)
+Lemma perdev_obs_histories dm h na nd e :
+  let t := trun dm tinit h in
+  perdev_obs_awg dm (t_awg t) (prun dm init_state [] h) (view na nd e (t_st t)) = true
+  /\ perdev_obs_dac (t_dac t) (prun_dac dm init_state [] h) (view na nd e (t_st t)) = true.
+Proof.
+  intros t. pose proof (framed_awg_histories dm h) as [A [B _]]. pose proof (framed_dac_histories dm h) as [Bd _].
+  fold t in A, B, Bd. split.
+  - apply perdev_obs_awg_view; auto. intros n a Hl Hd. apply clean_at_histories; auto.
+  - apply perdev_obs_dac_view; auto. intros n d Hl Hd. apply dclean_at_histories; auto.
+Qed.
+
 Lemma fspec_model dm na nd : forall r h e0,
   forallb op_wf (h ++ r) = true ->
   bench_ok dm na nd (t_st (trun dm tinit h)) r = true ->
-  fspec_steps dm (t_awg (trun dm tinit h)) (t_dac (trun dm tinit h)) (view na nd e0 (t_st (trun dm tinit h)))
-              (model_steps dm na nd (t_st (trun dm tinit h)) r) = true.
+  fspec_steps dm (t_awg (trun dm tinit h)) (t_dac (trun dm tinit h)) (prun dm init_state [] h) (prun_dac dm init_state [] h)
+              (view na nd e0 (t_st (trun dm tinit h))) (model_steps dm na nd (t_st (trun dm tinit h)) r) = true.
 Proof.
   induction r as [|o r IH]; intros h e0 Hw Hb; [reflexivity|].
   cbn [model_steps fspec_steps]. cbn [bench_ok] in Hb. apply andb_true_iff in Hb as [Hb1 Hb2].
   set (t := trun dm tinit h) in *. set (st := t_st t) in *.
-  rewrite otrack_awg_view, otrack_dac_view.
+  rewrite otrack_awg_view, otrack_dac_view, optrack_awg_view, optrack_dac_view.
   assert (forallb op_wf h = true /\ op_wf o = true /\ forallb op_wf ((h ++ [o]) ++ r) = true) as [Hwh [Hwo Hw']].
   { rewrite <- app_assoc. cbn [app]. rewrite forallb_app in Hw. apply andb_true_iff in Hw as [H1 H2]. cbn in H2.
     apply andb_true_iff in H2 as [H2 H3]. repeat split; auto. rewrite forallb_app. cbn. rewrite H1, H2, H3. auto. }
@@ -411,16 +483,22 @@ Proof.
   assert (t_st (trun dm tinit (h ++ [o])) = fst (step dm st o)) as Est by (rewrite Happ; reflexivity).
   assert (t_awg (trun dm tinit (h ++ [o])) = track_awg dm st o (t_awg t)) as Eta by (rewrite Happ; reflexivity).
   assert (t_dac (trun dm tinit (h ++ [o])) = track_dac dm st o (t_dac t)) as Etd by (rewrite Happ; reflexivity).
+  assert (st = run dm init_state h) as Erun by (unfold st, t; rewrite t_st_run; reflexivity).
+  assert (prun dm init_state [] (h ++ [o]) = ptrack_awg dm st o (prun dm init_state [] h)) as Epa.
+  { rewrite prun_app, Erun. reflexivity. }
+  assert (prun_dac dm init_state [] (h ++ [o]) = ptrack_dac dm st o (prun_dac dm init_state [] h)) as Epd.
+  { rewrite prun_dac_app, Erun. reflexivity. }
   pose proof (bench_regs na nd _ Hb1) as Hrange.
   destruct (framed_obs_histories dm (h ++ [o]) na nd (snd (step dm st o))) as [FA FD].
   { rewrite Est. exact Hrange. }
-  rewrite Est, Eta in FA. rewrite Est, Etd in FD.
-  specialize (IH (h ++ [o]) (snd (step dm st o)) Hw'). rewrite Est, Eta, Etd in IH. specialize (IH Hb2).
+  destruct (perdev_obs_histories dm (h ++ [o]) na nd (snd (step dm st o))) as [PA PD].
+  rewrite Est, Eta in FA. rewrite Est, Etd in FD. rewrite Est, Eta, Epa in PA. rewrite Est, Etd, Epd in PD.
+  specialize (IH (h ++ [o]) (snd (step dm st o)) Hw'). rewrite Est, Eta, Etd, Epa, Epd in IH. specialize (IH Hb2).
   cbn [view o_err]. destruct (snd (step dm st o)) as [e|] eqn:Es.
-  - rewrite FA, FD, IH. auto.
+  - rewrite FA, FD, PA, PD, IH. auto.
   - destruct (fpost_model dm h na nd Hwh o e0 Hwo Es) as [P1 P2].
     { intros n r0 L a Ha. apply (Hrange n r0 L). auto. }
-    cbn zeta in P1, P2. fold t in P1, P2. fold st in P1, P2. rewrite P1, P2, FA, FD, IH. auto.
+    cbn zeta in P1, P2. fold t in P1, P2. fold st in P1, P2. rewrite P1, P2, FA, FD, PA, PD, IH. auto.
 Qed.
 
 (* Corr.check_framed accepts the model's own trace of every history of well-formed operations on a bench that contains
